@@ -43,6 +43,14 @@ func randReq(q *lib.Rng, src string) Op {
 		o.B64Ok = !q.Chance(1, 8)
 		o.MatOk = !q.Chance(1, 8)
 		o.Pcols = q.Pick([]int{16, 16, 32, 8, 6})
+		switch q.Intn(6) { // the basis of another model: wrong in one dimension, or in both
+		case 0:
+			o.BRows = o.Pcols + q.Range(1, 3)
+		case 1:
+			o.BCols = q.Range(2, 4)
+		case 2:
+			o.BRows, o.BCols = q.Range(2, 7), q.Range(2, 4)
+		}
 	case "wc":
 		ws := []string{"start", "start", "start", "stop", "pause", "unpause", "unpause-label", "unpause-bad", "garbage"}
 		o.W = ws[q.Intn(len(ws))]
@@ -159,6 +167,10 @@ func corpus() []Case {
 		{Source: "triangle", Seed: 33, Ops: []Op{st, {Op: "wc", W: "start", Ljh: true, PathO: true, Io: true}, {Op: "stopc"}, {Op: "wc", W: "stop"}, trig(0), sp}},
 		// two mix requests outstanding at the same moment (two connections)
 		{Source: "lancero", Seed: 34, Ops: []Op{st, {Op: "mix2", Idx: []int{1}, Nfrac: 1}, {Op: "mix", Idx: []int{3}, Nfrac: 1}, sp}},
+		// projector / basis pairs whose basis is wrong in exactly one dimension, or in both
+		{Source: "triangle", Seed: 35, Ops: []Op{st, {Op: "projectors", PIdx: 0, B64Ok: true, MatOk: true, Pcols: 16, BCols: 3},
+			{Op: "projectors", PIdx: 1, B64Ok: true, MatOk: true, Pcols: 16, BRows: 7}, {Op: "projectors", PIdx: 1, B64Ok: true, MatOk: true, Pcols: 16, BRows: 7, BCols: 2},
+			{Op: "projectors", PIdx: 2, B64Ok: true, MatOk: true, Pcols: 16}, {Op: "wc", W: "start", Off: true, PathO: true}, {Op: "wc", W: "stop"}, sp}},
 		// restart on the same server
 		{Source: "triangle", Seed: 14, Ops: []Op{st, trig(1), sp, trig(1), st, st, trig(1), sp, sp}},
 	}
